@@ -142,7 +142,17 @@ def build(case):
         mat = materials.ConstantThermalMaterial("mat", float(case.mat_k[0]), float(case.mat_a[0]))
     else:
         mat = materials.PiecewiseLinearThermalMaterial("mat", case.mat_T, case.mat_k, case.mat_a)
-    fluid = materials.ConstantFluidMaterial({"mat": case.film})
+    # the tube material's own film coefficient is `case.film`; a "default" entry with another value is present in
+    # two of three cases (it must lose against the material's entry), and in the third the material is found only
+    # through "default"
+    sel = int(round(case.film * 64)) % 3
+    other = 2.0 * case.film + 1.0
+    table = {"default": case.film} if sel == 0 else ({"mat": case.film, "default": other} if sel == 1
+                                                     else {"default": other, "mat": case.film})
+    if int(round(case.film * 64)) % 2 == 0:
+        fluid = materials.ConstantFluidMaterial(table)
+    else:
+        fluid = materials.PiecewiseLinearFluidMaterial({k: (np.array([-1.0e5, 1.0e5]), np.array([v, v])) for k, v in table.items()})
     return tube, mat, fluid
 
 
@@ -235,7 +245,7 @@ def wall_values(case, tube, mat, fluid, which, time):
         return "flux", [float(np.ravel(bc.flux(time, th, z))[0]) for th, z in pts], []
     if kind == "conv":
         tf = [float(np.ravel(bc.fluid_temperature(time, z))[0]) for th, z in pts]
-        hh = [float(fluid.coefficient(mat.name, np.array(x))) for x in tf]
+        hh = [float(case.film) for x in tf]      # the datum itself, not the fluid object's answer
         return "conv", tf, hh
     if kind == "film":
         tf = [float(np.ravel(bc.fluid_temperature(time, z))[0]) for th, z in pts]
